@@ -1040,6 +1040,7 @@ fn main() {
     let out = args[3].clone();
     quiet_panics();
     dropshot::verif::install_memory_sink();
+    verif_harness::campaign_budget(&out);
     let seed = seed_from_env();
     let rt = tokio::runtime::Builder::new_multi_thread().worker_threads(4).enable_all().build().unwrap();
     rt.block_on(async {
